@@ -5,6 +5,7 @@ PROP = dict(
     prop_targets=["Properties/C01.vo"],
     cases=dict(quick=3000, thorough=40000),
     level="proof",
+    release_quick=3,
     rule="15 algorithms in rotation (Rcb/Rib 2D+3D, Hilbert 2D+3D, ZCurve 2D+3D, MultiJagged, Greedy, KarmarkarKarp, "
          "CompleteKarmarkarKarp, Grid::rcb 2D+3D, Random) x 8 point families (uniform, clustered, collinear, coincident, lattice, "
          "one outlier, duplicates, arbitrary f64) x 6 weight families (uniform, random, zeros, one heavy, skewed, ties) x part "
